@@ -207,7 +207,7 @@ const PROCEDURES: &[&str] = &[
     "fnmatch-ci?", "type->char", "strftime", "localtime", "dirname", "lipe-scan-break", "make-printer", "lipe-scan", "not",
     "newline", "string-append", "number->string", "make-recursive-mutex", "lock-mutex", "unlock-mutex", "list", "cons",
     "car", "cdr", "null?", "reverse", "append", "length", "for-each", "eq?", "eqv?", "string=?", "string-null?",
-    "string-length", "zero?", "1+", "1-", "force-output", "flush-all-ports", "string?", "apply",
+    "string-length", "zero?", "1+", "1-", "force-output", "flush-all-ports", "string?", "apply", "string-join",
 ];
 
 fn builtin_name(name: &str) -> Option<&'static str> {
@@ -454,6 +454,52 @@ impl Runtime {
         r
     }
 
+    /// `(define name expr)` / `(define (name params...) body...)`: returns the extended environment.
+    fn define(self: &Arc<Self>, items: &[Sexp], env: &Env, ctx: &mut Ctx) -> R<Env> {
+        match items.get(1) {
+            Some(Sexp::Sym(n)) => {
+                let v = match items.get(2) {
+                    Some(init) => self.eval(init, env, ctx)?,
+                    None => Val::Unspec,
+                };
+                Ok(bind(env, n, v))
+            }
+            Some(Sexp::List(sig)) => {
+                let Some(Sexp::Sym(n)) = sig.first() else { return unsupported("malformed define") };
+                let mut params = vec![];
+                for p in &sig[1..] {
+                    match p {
+                        Sexp::Sym(x) => params.push(x.clone()),
+                        _ => return unsupported("define parameter that is not a symbol"),
+                    }
+                }
+                // the procedure may refer to itself: bind first, then patch the cell
+                let inner = bind(env, n, Val::Unspec);
+                let clo = Val::Closure(Arc::new(Closure { params, body: items[2..].to_vec(), env: inner.clone() }));
+                *inner.as_ref().unwrap().val.lock().unwrap() = clo;
+                Ok(inner)
+            }
+            _ => unsupported("malformed define"),
+        }
+    }
+
+    /// Evaluate a body; internal `define`s extend the environment of the forms that follow.
+    fn eval_body(self: &Arc<Self>, forms: &[Sexp], env: &Env, ctx: &mut Ctx) -> R {
+        let mut env = env.clone();
+        let mut last = Val::Unspec;
+        for form in forms {
+            if let Sexp::List(items) = form {
+                if matches!(items.first(), Some(Sexp::Sym(h)) if h == "define") && lookup(&env, "define").is_none() {
+                    env = self.define(items, &env, ctx)?;
+                    last = Val::Unspec;
+                    continue;
+                }
+            }
+            last = self.eval(form, &env, ctx)?;
+        }
+        Ok(last)
+    }
+
     pub fn apply(self: &Arc<Self>, f: &Val, args: Vec<Val>, ctx: &mut Ctx) -> R {
         match f {
             Val::Closure(c) => {
@@ -464,11 +510,7 @@ impl Runtime {
                 for (p, a) in c.params.iter().zip(args) {
                     env = bind(&env, p, a);
                 }
-                let mut last = Val::Unspec;
-                for form in &c.body {
-                    last = self.eval(form, &env, ctx)?;
-                }
-                Ok(last)
+                self.eval_body(&c.body, &env, ctx)
             }
             Val::Printer { port, mutex, term } => {
                 if args.len() != 1 {
@@ -569,11 +611,7 @@ impl Runtime {
                                 for (n, v) in pending {
                                     inner = bind(&inner, &n, v);
                                 }
-                                let mut last = Val::Unspec;
-                                for form in &items[2..] {
-                                    last = self.eval(form, &inner, ctx)?;
-                                }
-                                return Ok(last);
+                                return self.eval_body(&items[2..], &inner, ctx);
                             }
                             "set!" => {
                                 let (Some(Sexp::Sym(n)), Some(init)) = (items.get(1), items.get(2)) else {
@@ -1057,6 +1095,20 @@ impl Runtime {
                 (Some(Val::Mutex(a)), Some(Val::Mutex(b))) => a == b,
                 _ => false,
             })),
+            "string-join" => match args.first() {
+                Some(Val::List(l)) => {
+                    let sep = match args.get(1) {
+                        Some(v) => as_str(v, name)?.to_string(),
+                        None => " ".to_string(),
+                    };
+                    let mut parts = vec![];
+                    for x in l.iter() {
+                        parts.push(as_str(x, name)?.to_string());
+                    }
+                    s(&parts.join(&sep))
+                }
+                other => runtime(format!("string-join: not a list: {other:?}")),
+            },
             "string-null?" => Ok(Val::Bool(as_str(args.first().unwrap_or(&Val::Unspec), name)?.is_empty())),
             "string-length" => Ok(Val::Int(as_str(args.first().unwrap_or(&Val::Unspec), name)?.chars().count() as i128)),
             "string?" => Ok(Val::Bool(matches!(args.first(), Some(Val::Str(_))))),
@@ -1145,9 +1197,7 @@ impl Runtime {
             }
         }
         let mut ctx = Ctx::new(MAIN_THREAD);
-        for f in forms {
-            self.eval(f, &None, &mut ctx)?;
-        }
+        self.eval_body(forms, &None, &mut ctx)?;
         Ok(())
     }
 }
